@@ -53,7 +53,7 @@ claim("C02", "sched",
 
 claim("C03", "sched",
       "bounded exhaustive schedule enumeration (ICB): emit completion vs consumer completion, occupancy bounds, liveness after closing",
-      "Plain pass-through nodes alone and behind buffer, buffer(n)/zip(maxsize=n)/map_async(n) for n in 1..3, 2- and 3-input zip, awaiting and bursting producers: "
+      "Plain pass-through nodes alone and behind buffer (flatten with one, two and three pieces per element, every order in which their consumers finish), buffer(n)/zip(maxsize=n)/map_async(n) for n in 1..3, 2- and 3-input zip, awaiting and bursting producers: "
       "(a) evaluated at the action in which an emit awaitable completes, (b) accepted-but-not-handed-on <= n at every step, (c) no pending emit / queued element after all consumers completed.",
       "asynchronous mode on the virtual loop and threaded mode (blocking emit from 1-2 real threads under a baton, the explorer playing the loop thread; a bounded Event.wait expires once); elements with and without checkpoint counters; n<=3; deviations <=1 quick / <=2 thorough; map_async bound n+1 as pinned by test_map_async",
       "DESIGN.md §3 C03")
@@ -122,7 +122,7 @@ claim("C10", "seqbfs",
 
 claim("C15", "seqbfs",
       "explicit-state BFS over graph-edit histories on a pool of real nodes, reference graph interpreter over the current edge list as oracle",
-      "19 operations (emits at three sources, connect/disconnect of every edge into a join that keeps the graph free of parallel edges, destroy of join and map, destroy(streams=[one input]), drop-last-reference + gc.collect(), sink.destroy(); a sink nobody references) "
+      "21 operations (emits at three sources, connect/disconnect of every edge into a join that keeps the graph free of parallel edges, destroy of join and map, destroy(streams=[one input]), drop-last-reference with and without gc.collect(), sink.destroy(), moving the sink nobody references to another stream followed by a collection) "
       "x 5 join kinds (zip, combine_latest plain / emit_on=0 / emit_on=1, union), all histories to depth 6 (7 thorough) with dedup on (edge lists, join state); after every operation links must be mutually consistent, "
       "build_node_set must equal the reference reachable set and deliveries must equal the reference over the current edges (zip: every complete tuple by the edit or the next arrival; gc'ed branch silent; sink alive until destroyed).",
       "fixed node pool; parallel edges excluded by construction; operations documented to raise (removing the emit_on stream) are not generated",
